@@ -67,6 +67,15 @@ func c12Run(w *W) {
 		case 0: // bad scheme
 			c.do("Listen(bogus)", func() (interface{}, error) { return nil, s.Listen("bogus://x") })
 			c.do("Dial(bogus)", func() (interface{}, error) { return nil, s.Dial("bogus://x") })
+			for _, a := range []string{"no-scheme", "", "://", "tcp:/127.0.0.1:1"} {
+				a := a
+				if r := c.do("Listen(malformed address)", func() (interface{}, error) { return nil, s.Listen(a) }); r.Returned() && r.Err == nil {
+					w.Failf("C12/malformed-address-accepted", "Listen(%q) returned nil", a)
+				}
+				if r := c.do("Dial(malformed address)", func() (interface{}, error) { return nil, s.Dial(a) }); r.Returned() && r.Err == nil {
+					w.Failf("C12/malformed-address-accepted", "Dial(%q) returned nil", a)
+				}
+			}
 			w.Probe("err-bad-transport")
 		case 1: // address in use, then corrected retry
 			a := w.Addr("msg")
